@@ -15,10 +15,86 @@ ASSUMPTIONS = ["branch conditions are never interpreted: each return is analysed
                "vec3 semantics come from vec3's own member functions as parsed (opened), not from a model"]
 
 
+def sign_of(expr, facts):
+    """Sign abstract interpretation: '+' (>= 0), '-' (<= 0), '0', or '?' for a rational expression, given
+    facts {sympy symbol: '+'|'-'}.  n/d is brought to one fraction; a polynomial is >= 0 if every monomial is."""
+    expr = sp.together(sp.sympify(expr))
+    n, d = sp.fraction(expr)
+    def poly_sign(p_):
+        p_ = sp.expand(p_)
+        if p_ == 0:
+            return "0"
+        signs = set()
+        for term in sp.Add.make_args(p_):
+            c, rest = term.as_coeff_Mul()
+            sg = 1 if c > 0 else -1
+            for f, e in rest.as_powers_dict().items():
+                if f == 1:
+                    continue
+                if not f.is_Symbol:
+                    return "?"
+                fs = facts.get(f)
+                if e.is_Integer and int(e) % 2 == 0:
+                    continue
+                if fs is None:
+                    return "?"
+                if fs == "-":
+                    sg = -sg
+            signs.add(sg)
+        if signs == {1}:
+            return "+"
+        if signs == {-1}:
+            return "-"
+        return "?"
+    sn, sd = poly_sign(n), poly_sign(d)
+    if sn == "0":
+        return "0"
+    if "?" in (sn, sd) or sd == "0":
+        return "?"
+    return "+" if sn == sd else "-"
+
+
+def guard_facts(ev, fi, node):
+    """Sign facts stated by the dominating if-conditions that hold (polarity true) as conjunctions of
+    comparisons with zero. Returns (facts, substitutions for compound left-hand sides, applicable?)."""
+    facts, subs, applicable = {}, [], False
+    k = 0
+    for cond, pol in fi.guards(node):
+        if not pol:
+            continue
+        ops = {y.get("op") for y in walk(cond) if y.get("k") == "BinaryOperator" and y.get("op") in ("&&", "||")}
+        if not ops <= {"&&"}:
+            continue
+        applicable = True
+        for x in walk(cond):
+            if x.get("k") == "BinaryOperator" and x.get("op") in ("<=", ">=", "<", ">"):
+                l, r = x["c"][0], strip(x["c"][1])
+                if r.get("k") in ("FloatingLiteral", "IntegerLiteral") and float(r["v"]) == 0.0:
+                    try:
+                        le = sp.sympify(ev.ev(l))
+                    except S.Decline:
+                        continue
+                    sg = "+" if x["op"] in (">=", ">") else "-"
+                    if le.is_Symbol:
+                        facts[le] = sg
+                    else:
+                        k += 1
+                        u = sp.Symbol("_g%d" % k, real=True)
+                        subs.append((le, u))
+                        facts[u] = sg
+    return facts, subs, applicable
+
+
 def declare(rep):
+    rep.rule("C05.nonneg-under-guard", "for a return inside a region test that is a conjunction of sign conditions, the returned components are >= 0 by sign analysis of those conditions", floor=6)
     rep.rule("C05.bary-sum", "the returned barycentric components sum to 1 (identity)", floor=7)
     rep.rule("C05.distance-consistent", "the returned squared distance equals |p - (b0*a+b1*b+b2*c)|^2 for the returned components (identity)", floor=7)
     rep.rule("C05.translation", "returned distance and components are invariant under a common translation of p,a,b,c", floor=7)
+
+
+def re_name(x):
+    import re
+    return re.sub(r"#\d+", "", str(x))
 
 
 def run(rep, prog, tier):
@@ -52,6 +128,42 @@ def run(rep, prog, tier):
                 rep.violation("C05.distance-consistent", prog, fn, r, "%s distance != distance to the designated point" % tag,
                               "%s: the returned squared distance %s is not the squared distance from p to the point designated by the returned barycentric coordinates (%s)"
                               % (tag, short(strip(r["value"]).get("c", [r["value"]])[0], 60), getattr(ev, "last_witness", "")))
+            # non-negativity by sign abstract interpretation under the dominating region test
+            fi = prog.index(fn)
+            facts, gsubs, applicable = guard_facts(ev, fi, r)
+            if applicable:
+                bad_c = []
+                for x in comps:
+                    x1 = sp.sympify(x)
+                    for _ in range(3):
+                        x1, ch = ev.expand_once(x1)
+                        if not ch:
+                            break
+                        if all(a in facts or not a in ev.local_syms for a in x1.free_symbols):
+                            pass
+                    # express through the guard's own quantities
+                    xs = sp.sympify(x)
+                    cands = [xs]
+                    y, ch = ev.expand_once(xs)
+                    if ch:
+                        cands.append(y)
+                    got = "?"
+                    for c_ in cands:
+                        for (le, u) in gsubs:
+                            c_ = sp.together(c_).subs(le, u)
+                            c_ = c_.subs(sp.expand(le), u)
+                        sg = sign_of(c_, facts)
+                        if sg in ("+", "0"):
+                            got = sg
+                            break
+                    if got == "?":
+                        bad_c.append(str(xs))
+                if not bad_c:
+                    rep.ok("C05.nonneg-under-guard", prog, fn, r, "%s: components are >= 0 given the region test (%s)" % (tag, ", ".join("%s %s 0" % (re_name(a), ">=" if s_ == "+" else "<=") for a, s_ in facts.items())))
+                else:
+                    rep.violation("C05.nonneg-under-guard", prog, fn, r, "%s: region test does not imply non-negative coordinates" % tag,
+                                  "%s returns component(s) %s whose non-negativity does not follow from its region test (%s): for some points the kernel designates a point outside the triangle (on the extension of an edge) and under-estimates the distance"
+                                  % (tag, ", ".join(re_name(b) for b in bad_c), ", ".join("%s %s 0" % (re_name(a), ">=" if s_ == "+" else "<=") for a, s_ in facts.items()) or "no sign condition"))
             inv = S.Invariance(ev, lambda n: n.split(".")[0] in {q["name"] for q in fn["params"]})
             bad = None
             if not inv.scalar_weight0(d2):
